@@ -254,6 +254,7 @@ func genMsgs(out string) {
 	var idThms []string
 	var idLists []string
 	var commonPairs []string // (id, Lean name of the definition) for the dialect "common"
+	shared := map[string][]string{} // Go message name -> ("dialect", "defining package", id) of every dialect listing it
 	for _, e := range ents {
 		if !e.IsDir() {
 			continue
@@ -276,6 +277,7 @@ func genMsgs(out string) {
 				ch = append(ch, lstr(c))
 			}
 			ms = append(ms, fmt.Sprintf("  { goName := %s, id := %d, defPkg := %s, chain := [%s] }", lstr(gn), m.id, lstr(m.pkg), strings.Join(ch, ", ")))
+			shared[gn] = append(shared[gn], fmt.Sprintf("(%s, %s, %d)", lstr(d.name), lstr(m.pkg), m.id))
 			if d.name == "common" {
 				commonPairs = append(commonPairs, fmt.Sprintf("(%d, m_%s_%s)", m.id, m.pkg, m.goName))
 			}
@@ -316,6 +318,27 @@ func genMsgs(out string) {
 		idLists = append(idLists, fmt.Sprintf("(%s, ids_%s)", lstr(d.name), d.name))
 		idThms = append(idThms, "ids_distinct_"+d.name)
 	}
+	// every message name, with where each dialect that lists it takes it from
+	var snames []string
+	for k := range shared {
+		snames = append(snames, k)
+	}
+	sort.Strings(snames)
+	var schunks []string
+	for i := 0; i < len(snames); i += 60 {
+		j := i + 60
+		if j > len(snames) {
+			j = len(snames)
+		}
+		var gs []string
+		for _, k := range snames[i:j] {
+			gs = append(gs, fmt.Sprintf("(%s, [%s])", lstr(k), strings.Join(shared[k], ", ")))
+		}
+		dl.WriteString(fmt.Sprintf("def msgGroups_%d : List (String × List (String × String × Nat)) := [\n  %s]\n\n", i/60, strings.Join(gs, ",\n  ")))
+		schunks = append(schunks, fmt.Sprintf("msgGroups_%d", i/60))
+	}
+	dl.WriteString("/-- message name ↦ (dialect, defining package, id) for every dialect whose message list contains it -/\ndef allMsgGroups : List (List (String × List (String × String × Nat))) := [" + strings.Join(schunks, ", ") + "]\n\n")
+	dl.WriteString("set_option maxRecDepth 1000000 in\n/-- ENUMERATED (kernel-decided): a message listed by several dialects is, in all of them, the type defined in ONE package, with one id -/\ntheorem msgs_shared : allMsgGroups.all (fun ch => ch.all Mav.sameDefinition) = true := by decide +kernel\n\n")
 	dl.WriteString("def dialects : List Dialect := [" + strings.Join(dnames, ", ") + "]\n\n")
 	dl.WriteString("/-- dialect name ↦ its message ids -/\ndef dialectIds : List (String × List Nat) := [" + strings.Join(idLists, ", ") + "]\n\n")
 	dl.WriteString("theorem ids_distinct : dialectIds.all (fun d => Mav.idsDistinct d.2) = true := by\n  simp only [dialectIds, List.all_cons, List.all_nil, " + strings.Join(idThms, ", ") + ", Bool.and_self]\n\nend Mav.Gen\n")
